@@ -53,9 +53,11 @@ def rat_record(x, maxden: int) -> dict:
     if math.isinf(xf):
         return TOK("inf") if xf > 0 else TOK("ninf")
     fr = Fraction(xf).limit_denominator(maxden)
-    # the unique small fraction within 4 ulp
-    tol = 4 * abs(math.ulp(xf)) if xf != 0 else 1e-300
-    if abs(float(fr) - xf) <= max(tol, 1e-15 * abs(xf)):
+    # Two distinct fractions with denominators <= Q differ by at least 1/Q^2, so anything within
+    # a quarter of that is the unique candidate; float evaluation errors (a few ulp, more after
+    # cancellation in a mean) are orders of magnitude below it for the Q used here (<= 1e6).
+    tol = max(8 * abs(math.ulp(xf)), 0.25 / float(maxden) ** 2)
+    if abs(float(fr) - xf) <= tol:
         if abs(fr.numerator) < 2**30 and fr.denominator < 2**30:
             return {"k": "rat", "v": [fr.numerator, fr.denominator]}
         return TOK("skip")
@@ -73,7 +75,7 @@ def milli_record(x) -> dict:
     v = math.floor(xf * 1000.0 + 1e-9)
     if abs(v) >= 2**30:
         return TOK("skip")
-    return {"k": "milli", "v": int(v)}
+    return {"k": "milli", "v": [int(v), 1000]}
 
 
 def var_record(std, maxden: int) -> dict:
@@ -83,8 +85,9 @@ def var_record(std, maxden: int) -> dict:
     s = float(std)
     if math.isnan(s) or math.isinf(s):
         return rat_record(s, 1)
-    fr = Fraction(s * s).limit_denominator(maxden)
-    if abs(math.sqrt(float(fr)) - s) <= 1e-12 * max(1.0, abs(s)):
+    v = s * s
+    fr = Fraction(v).limit_denominator(maxden)
+    if abs(float(fr) - v) <= max(16 * abs(math.ulp(v)), 0.25 / float(maxden) ** 2):
         if abs(fr.numerator) < 2**30 and fr.denominator < 2**30:
             return {"k": "rat", "v": [fr.numerator, fr.denominator]}
         return TOK("skip")
